@@ -2,6 +2,8 @@ package path
 
 import (
 	"errors"
+	"fmt"
+	"strings"
 )
 
 func build(source string, parsed any) PropertyPath {
@@ -52,9 +54,15 @@ func ParsePath(path string) (PropertyPath, error) {
 			},
 		}, nil
 	}
-	parsed, err := Parse("", []byte(path))
+	// The grammar's start rule does not demand end of input: the generated parser stops after the longest
+	// prefix that is an expression. The whole string (but for trailing whitespace) must have been consumed.
+	p := newParser("", []byte(path))
+	parsed, err := p.parse(g)
 	if err != nil {
-		panic(err)
+		return nil, errors.New(fmt.Sprintf("invalid property path '%s': %s", path, err.Error()))
+	}
+	if rest := strings.TrimSpace(string(p.data[p.pt.offset:])); rest != "" {
+		return nil, errors.New(fmt.Sprintf("invalid property path '%s': unexpected '%s' at offset %d", path, rest, p.pt.offset))
 	}
 
 	propertyPath := build(path, parsed)
